@@ -229,6 +229,23 @@ pub fn run(run: &Run) {
         }
     });
     run.bound("smooth catalogue", "20 analytic integrands × both orientations × 67 panel counts × 3 tolerances");
+    // narrow intervals far from the origin with eps = 0 and deep level budgets: the panel width reaches the spacing of
+    // the floats around the limits; the result stays the integral (to the accuracy of the nodes)
+    {
+        let ivs: Vec<(f64, f64)> = vec![(1000.0 - 1e-8, 1000.0), (500.0, 500.0 + 3e-10), (1000.0, 1000.0 - 1e-8), (-250.0 - 1e-9, -250.0), (1e6, 1e6 + 1e-6), (3.0, 3.0 + 1e-13)];
+        for &(a, b) in &ivs {
+            for d in 0..=3u32 {
+                for nmax in [8usize, 13, 14, 16, 18, 20] {
+                    run.case();
+                    run.nontrivial(1);
+                    let (want, _) = mono_int(a, b, d);
+                    // nodes are rounded to the float grid: relative accuracy (spacing / width), generously
+                    let tol = want.abs() * (1e-6f64).max(64.0 * U * a.abs().max(b.abs()) / (b - a).abs()) + 1e-300;
+                    judge(run, "romberg/narrow-interval-at-offset", guard(|| romberg(|x| x.powi(d as i32), a, b, 0.0, nmax)), want, tol, &|| format!("romberg(x^{}, a={:e}, b={:e}, eps=0, nmax={})", d, a, b, nmax));
+                }
+            }
+        }
+    }
     // iterated integrals: the integrand of one rule calls another rule (or the same one)
     {
         run.case();
